@@ -46,19 +46,46 @@ def in_context_tokens(l, text, p, n, start):
     return toks
 
 
-def ref_scan(ctx, l, text, a, b, start, stats):
-    """leftmost-longest emulation over [a, b) of text, from public calls only"""
+def start_matchers(l, lexer, start):
+    """compiled regexps of the terminals with which a match can begin: every non-ignored terminal (basic lexer), or the
+    non-ignored terminals the parser can take in its start state (contextual lexer) - "a parse attempt at every position
+    where a match could begin" (docs of Lark.scan)"""
+    import re
+    ign = set(l.ignore_tokens)
+    names = None
+    if lexer == 'contextual':
+        ip = l.parse_interactive('', start=start)
+        names = {k for k in ip.choices() if k.isupper()}
+    out = []
+    for t in l.terminals:
+        if t.name in ign or (names is not None and t.name not in names):
+            continue
+        src = t.pattern.to_regexp()
+        if l.options.use_bytes:
+            src = src.encode('latin-1')
+        out.append(re.compile(src, l.options.g_regex_flags))
+    return out
+
+
+def ref_scan(ctx, l, lexer, text, a, b, start, stats):
+    """leftmost-longest emulation over [a, b) of text, from public calls only.  A candidate is a position where a start
+    terminal matches; the attempt lexes in context from there (leading ignored text included, so a comment that begins
+    like a start terminal swallows what it contains); a match is reported from its first token."""
     from lark import TextSlice
     out = []
     pos = a
+    ms = start_matchers(l, lexer, start)
     while pos < b:
         found = None
         for p in range(pos, b):
-            toks = in_context_tokens(l, text, p, b, start)
-            if not toks or toks[0].start_pos != p:
+            if not any(m.match(text, p, b) for m in ms):
                 continue
-            if p > pos:
-                stats['candidates-tried'] = stats.get('candidates-tried', 0) + 1
+            toks = in_context_tokens(l, text, p, b, start)
+            if not toks:
+                stats['failed-candidates'] = stats.get('failed-candidates', 0) + 1
+                continue
+            if toks[0].start_pos != p:
+                stats['candidates-starting-with-ignored-text'] = stats.get('candidates-starting-with-ignored-text', 0) + 1
             ends = []
             for t in toks:
                 if t.end_pos is not None and (not ends or t.end_pos > ends[-1]):
@@ -69,7 +96,7 @@ def ref_scan(ctx, l, text, a, b, start, stats):
                     r = l.parse(TextSlice(text, p, q), start=start)
                 except Exception:
                     continue
-                found = (p, q, r, len(ends), ends.index(q) + 1)
+                found = (toks[0].start_pos, q, r, len(ends), ends.index(q) + 1)
                 break
             if found:
                 break
@@ -104,7 +131,9 @@ def check_text(ctx, g, engines, text, start, feats0, nullable):
             ctx.violation('scan-raises:%s' % lexer, case, {'exc': repr(e)[:300]})
             continue
         stats = {}
-        ref = ref_scan(ctx, l, text, 0, n, start, stats)
+        ref = ref_scan(ctx, l, lexer, text, 0, n, start, stats)
+        if stats.get('candidates-starting-with-ignored-text'):
+            ctx.count('feature:candidate-starts-with-ignored-text')
         exp = [([p, q], canon_tree(r, True, True)) for p, q, r, _, _ in ref]
         feats = list(feats0) + ['lexer:' + lexer]
         if len(exp) >= 2:
@@ -182,6 +211,10 @@ def check_text(ctx, g, engines, text, start, feats0, nullable):
 
 
 FIXED = [
+    # an ignored terminal (comment) that starts like a start terminal and can hide whole sentences: after a failed
+    # attempt that began by skipping the comment, the positions inside the comment must still be tried
+    ('start: DASH? NUM\nDASH: "-"\nNUM: /[0-9]+/\nCOMMENT: /--[^\\n]*\\n?/\n%ignore COMMENT\n%ignore " "\n',
+     ['-- -3\n-x', '--5\n-', '-- 1 2\n-', '---7\n--', '-- 4\n5', '--\n-', '-1', '- 2 --c\n', '--9', '-x', '-- -8\n- -']),
     # an ignored terminal that begins like a start terminal: the search finds "-" but the lexer skips "->"
     ('start: DASH? NUM\nDASH: "-"\nNUM: /[0-9]+/\nARROW: "->"\n%ignore ARROW\n%ignore " "\n', ['-5', '->5', '5', '- 5', '-> -5', '->', '-', '5->6', '-->7', '->->8']),
     # keywords vs identifiers, in-context maximal munch
